@@ -241,7 +241,7 @@ def instances(ctx, spec, profile):
 OBSERVERS = {"len", "display", "codes", "reviter", "nth", "get", "windows", "chunks", "winvec", "chain",
              "eq", "eqstr", "cmp", "tousize", "tou8", "intousize", "intoraw", "hasheq", "mapget",
              "contains", "conv", "all", "arr", "kobs", "keq", "khasheq", "kcmp", "kderef", "kasref",
-             "keqseq", "keqstr", "kusize", "kmers", "kmin", "xlate", "xlatei", "xcodon", "ctq", "ctr"}
+             "keqseq", "keqstr", "kusize", "kview", "kmers", "kmin", "xlate", "xlatei", "xcodon", "ctq", "ctr"}
 EMITS = OBSERVERS | {"parse", "trim", "fromraw", "serde", "kfrom", "kstr", "kfromseq", "kserde"}
 
 
